@@ -583,6 +583,10 @@ def normalise(trees, protected):
         k = _lower_first_match(trees[mn])
         if k:
             done.append("%s:<%d first-match generator(s) written as loops>" % (mn, k))
+    for mn in sorted(trees):
+        k = _unroll_constant_loops(trees[mn])
+        if k:
+            done.append("%s:<%d loop(s) over a constant table unrolled>" % (mn, k))
     for _ in range(160):
         one = _one_pass(trees, protected)
         if one is None:
@@ -658,6 +662,11 @@ def _fold_dead(tree):
                             continue
                         live = st.body if v else st.orelse
                         lst[i:i + 1] = live if live or len(lst) > 1 else [ast.copy_location(ast.Pass(), st)]
+                        # what follows an arm that always leaves (return / raise / break / continue) no longer runs
+                        for j, s2 in enumerate(lst):
+                            if isinstance(s2, (ast.Return, ast.Raise, ast.Break, ast.Continue)) and j + 1 < len(lst) and j >= i and j < i + max(len(live), 1):
+                                del lst[j + 1:]
+                                break
                         changed = True
                         break
                 if changed:
@@ -1275,3 +1284,92 @@ def _lower_one(f):
             lst.remove(gen_stmt)
         return True
     return False
+
+
+# ---------------------------------------------------------------------------------------------------------------------------
+# Table-driven code:  for x in ("a", "b"): BODY   ==>   BODY[x := "a"]; BODY[x := "b"]
+# for a literal tuple / list (directly, or a module-level name bound once to one) of at most 8 rows whose cells are constants,
+# names or attribute chains; tuple targets take the columns.  Not when BODY assigns a loop variable, or leaves the loop by
+# break / continue at its own level, or the loop has an else clause.
+
+def _unroll_constant_loops(tree):
+    consts = {}
+    counts = {}
+    for st in tree.body:
+        if isinstance(st, ast.Assign) and len(st.targets) == 1 and isinstance(st.targets[0], ast.Name):
+            counts[st.targets[0].id] = counts.get(st.targets[0].id, 0) + 1
+            consts[st.targets[0].id] = st.value
+    consts = {k: v for k, v in consts.items() if counts[k] == 1 and isinstance(v, (ast.Tuple, ast.List))}
+    rebound = {n.id for n in ast.walk(tree) if isinstance(n, ast.Name) and isinstance(n.ctx, (ast.Store, ast.Del)) and n.id in consts}
+    n_done = 0
+    changed = True
+    while changed and n_done < 40:
+        changed = False
+        for holder in ast.walk(tree):
+            for fname in ("body", "orelse", "finalbody"):
+                lst = getattr(holder, fname, None)
+                if not isinstance(lst, list):
+                    continue
+                for i, st in enumerate(lst):
+                    if not isinstance(st, ast.For) or st.orelse:
+                        continue
+                    table = st.iter
+                    if isinstance(table, ast.Name) and table.id in consts and sum(1 for n in ast.walk(tree) if isinstance(n, ast.Name) and n.id == table.id and isinstance(n.ctx, ast.Store)) == 1:
+                        table = consts[table.id]
+                    if not isinstance(table, (ast.Tuple, ast.List)) or not (1 <= len(table.elts) <= 8):
+                        continue
+                    targets = [st.target] if isinstance(st.target, ast.Name) else (list(st.target.elts) if isinstance(st.target, (ast.Tuple, ast.List)) else None)
+                    if not targets or not all(isinstance(t, ast.Name) for t in targets):
+                        continue
+                    tnames = [t.id for t in targets]
+
+                    def cell_ok(c):
+                        return isinstance(c, ast.Constant) or _simple_arg(c, True)
+                    rows = []
+                    for r in table.elts:
+                        if isinstance(st.target, ast.Name):
+                            rows.append([r]) if cell_ok(r) else rows.append(None)
+                        elif isinstance(r, (ast.Tuple, ast.List)) and len(r.elts) == len(tnames) and all(cell_ok(c) for c in r.elts):
+                            rows.append(list(r.elts))
+                        else:
+                            rows.append(None)
+                    if any(r is None for r in rows):
+                        continue
+                    # the body neither rebinds a loop variable nor leaves / restarts the loop at its own level
+                    bad = False
+                    stack = list(st.body)
+                    while stack:
+                        n = stack.pop()
+                        if isinstance(n, (ast.Break, ast.Continue)):
+                            bad = True
+                        if isinstance(n, (ast.For, ast.While, ast.FunctionDef, ast.AsyncFunctionDef, ast.Lambda, ast.ClassDef)):
+                            # break / continue inside belong to the inner loop; names inside a nested scope are left alone
+                            if any(isinstance(x, ast.Name) and x.id in tnames and isinstance(x.ctx, ast.Store) for x in ast.walk(n)):
+                                bad = True
+                            if isinstance(n, (ast.FunctionDef, ast.AsyncFunctionDef, ast.Lambda, ast.ClassDef)) and any(isinstance(x, ast.Name) and x.id in tnames for x in ast.walk(n)):
+                                bad = True
+                            continue
+                        if isinstance(n, ast.Name) and n.id in tnames and isinstance(n.ctx, (ast.Store, ast.Del)):
+                            bad = True
+                        stack.extend(ast.iter_child_nodes(n))
+                    # loop variables read after the loop keep their last value: refuse
+                    f = holder
+                    after_use = any(isinstance(x, ast.Name) and x.id in tnames for later in lst[i + 1:] for x in ast.walk(later))
+                    if bad or after_use:
+                        continue
+                    new = []
+                    for r in rows:
+                        ren = _Rename({}, dict(zip(tnames, r)))
+                        for b in st.body:
+                            new.append(ren.visit(copy.deepcopy(b)))
+                    for n_ in new:
+                        ast.fix_missing_locations(n_)
+                    lst[i:i + 1] = new
+                    n_done += 1
+                    changed = True
+                    break
+                if changed:
+                    break
+            if changed:
+                break
+    return n_done
